@@ -337,11 +337,11 @@ theorem createFile_write_set (c : Cfg) (v nParent : Nat) (name : Bytes) (s : St)
     refine ⟨Wb ++ [nw, link], by rw [hWb, hW, hWr]; simp, Or.inr ⟨b, link, Wb ++ [nw], by simp, hl, fun h => absurd hst h,
       Or.inr ⟨nw, Wb, rfl, hn, fun h => absurd hnst h, hbo⟩⟩⟩
 
-theorem createDir_write_set (c : Cfg) (v nParent : Nat) (name : Bytes) (s : St)
+theorem createDirLink_write_set (c : Cfg) (v nParent : Nat) (name : Bytes) (s : St)
     (hnc : isDIRCACHE (c.vol v).dosType = false) :
-    Post AnyFault c (createDir v nParent name) s (fun _ s' => ∃ W, writesOf s'.trace = W ++ writesOf s.trace ∧
-      CreateWrites c s.disk v (blkOfBytes ((s.sector (vsect c v nParent)).take 512)) (s.mem.vol v).bitmapTable W) := by
-  unfold createDir
+    Post AnyFault c (createDirLink v nParent name) s (fun r s' => ∃ W, writesOf s'.trace = W ++ writesOf s.trace ∧
+      CreateLinkW c s.disk v (blkOfBytes ((s.sector (vsect c v nParent)).take 512)) (s.mem.vol v).bitmapTable r.2 W) := by
+  unfold createDirLink
   apply Post.bind; apply Post.getVolCfg
   apply Post.bind; apply readEntryBlock_full
   intro rc parent s1 hm _ hd hw hdata
@@ -387,14 +387,36 @@ theorem createDir_write_set (c : Cfg) (v nParent : Nat) (name : Bytes) (s : St)
           apply Post.pure
           exact ⟨[Ev.wr (some v) (vsect c v nSect) 512 dat st, e], by rw [hdat, hW, hWe, hw]; rfl,
             Or.inr ⟨nSect, e, [Ev.wr (some v) (vsect c v nSect) 512 dat st], rfl, hl, fun h => absurd hst h,
-              Or.inr ⟨_, [], rfl, hnew, fun _ => rfl, Or.inl rfl⟩⟩⟩
+              Or.inr ⟨_, rfl, hnew⟩⟩⟩
         · rw [if_neg (by rw [if_neg hrc3]; decide)]
-          refine Post.mono _ _ _ _ _ (updateBitmap_order c v s3) ?_
-          rintro rcb s4 ⟨Wb, hWb, hbo⟩
-          refine ⟨Wb ++ [Ev.wr (some v) (vsect c v nSect) 512 dat st, e], by rw [hWb, hdat, hW, hWe, hw]; simp,
-            Or.inr ⟨nSect, e, Wb ++ [Ev.wr (some v) (vsect c v nSect) 512 dat st], by simp, hl, fun h => absurd hst h,
-              Or.inr ⟨_, Wb, rfl, hnew, ?_, hbo⟩⟩⟩
-          intro h
-          exact absurd (hst3.mp (Classical.not_not.mp hrc3)) h
+          apply Post.pure
+          exact ⟨[Ev.wr (some v) (vsect c v nSect) 512 dat st, e], by rw [hdat, hW, hWe, hw]; rfl,
+            nSect, e, _, rfl, hl, hst, hnew, hst3.mp (Classical.not_not.mp hrc3)⟩
+
+theorem createDir_write_set (c : Cfg) (v nParent : Nat) (name : Bytes) (s : St)
+    (hnc : isDIRCACHE (c.vol v).dosType = false) :
+    Post AnyFault c (createDir v nParent name) s (fun _ s' => ∃ W, writesOf s'.trace = W ++ writesOf s.trace ∧
+      CreateWrites c s.disk v (blkOfBytes ((s.sector (vsect c v nParent)).take 512)) (s.mem.vol v).bitmapTable W) := by
+  unfold createDir
+  apply Post.bind
+  refine Post.mono _ _ _ _ _ (createDirLink_write_set c v nParent name s hnc) ?_
+  rintro ⟨rc, cont⟩ s1 ⟨W, hW, hL⟩
+  cases cont with
+  | false =>
+    simp only [Bool.not_false, if_true]
+    apply Post.pure
+    rcases hL with h0 | ⟨b, link, rest, hWr, hl, hst, hrest⟩
+    · exact ⟨W, hW, Or.inl h0⟩
+    · refine ⟨W, hW, Or.inr ⟨b, link, rest, hWr, hl, hst, ?_⟩⟩
+      rcases hrest with h0 | ⟨nw, hr, hn⟩
+      · exact Or.inl h0
+      · exact Or.inr ⟨nw, [], by rw [hr]; rfl, hn, fun _ => rfl, Or.inl rfl⟩
+  | true =>
+    obtain ⟨b, link, nw, hWr, hl, hst, hn, hnst⟩ := hL
+    simp only [Bool.not_true, Bool.false_eq_true, if_false]
+    refine Post.mono _ _ _ _ _ (updateBitmap_order c v s1) ?_
+    rintro rcb s4 ⟨Wb, hWb, hbo⟩
+    refine ⟨Wb ++ [nw, link], by rw [hWb, hW, hWr]; simp, Or.inr ⟨b, link, Wb ++ [nw], by simp, hl, fun h => absurd hst h,
+      Or.inr ⟨nw, Wb, rfl, hn, fun h => absurd hnst h, hbo⟩⟩⟩
 
 end Adf
